@@ -43,7 +43,7 @@ func init() {
 		Findings: map[string]func(v *mon.Violation) bool{},
 		Floors: func(tier string, cover map[string]int64, evals int64) []string {
 			var out []string
-			for _, k := range []string{"type:named", "type:structof", "type:embedded-value", "type:embedded-pointer", "value:zero", "value:full", "value:rand", "value:nil-embedded-pointer", "pass:value", "pass:pointer", "pass:in-slice", "pass:in-map", "pass:in-pointer-slice", "pass:in-pointer-map", "pass:in-any-slice",
+			for _, k := range []string{"type:named", "type:structof", "type:hook-fields", "type:embedded-value", "type:embedded-pointer", "value:zero", "value:full", "value:rand", "value:nil-embedded-pointer", "pass:value", "pass:pointer", "pass:in-slice", "pass:in-map", "pass:in-pointer-slice", "pass:in-pointer-map", "pass:in-any-slice",
 				"opt:UseTags", "opt:KeyExact", "opt:NestEmbed", "opt:OmitNil", "opt:OmitEmpty", "opt:CreateKey", "opt:FullTypePath", "opt:BytesAsBase64", "opt:BytesAsArray", "opt:Indent", "opt:Go-compatible", "encoding/json-compared"} {
 				if cover[k] == 0 {
 					out = append(out, "coverage class never reached: "+k)
@@ -975,12 +975,102 @@ func hasNilEmbeddedPtr(v reflect.Value) bool {
 	return false
 }
 
+// hooks: struct fields whose types implement json.Marshaler, encoding.TextMarshaler or alt.Simplifier. The
+// Options comments do not say how each encoder treats them (oj and sen call the hooks, pretty and
+// alt.Decompose use reflection or Simplify), so there is no reference tree; what must hold: no encoder fails
+// whichever way the value is passed, the oj and sen encoders agree with each other, and pretty agrees with
+// alt.Decompose.
+func (ck *checker) hooks(r *rand.Rand) {
+	c := ck.c
+	h := HookHolder{HookJ: JM{1 + r.Intn(5)}, HookT: TM{r.Intn(5)}, HookS: SM{r.Intn(5)}, HookPJ: PJM{r.Intn(5)}, HookN: r.Intn(3)}
+	if r.Intn(2) == 0 {
+		h.HookPP = &PJM{r.Intn(5)}
+		h.HookPT = &TM{r.Intn(5)}
+		h.HookOJ = JM{r.Intn(3)}
+	}
+	switch r.Intn(4) {
+	case 0:
+		h.HookI = SM{7}
+	case 1:
+		h.HookI = &TM{8}
+	case 2:
+		h.HookI = JM{9}
+	}
+	o, _ := ck.options(r)
+	var val any
+	label := ""
+	switch r.Intn(5) {
+	case 0:
+		val, label = h, "value"
+	case 1:
+		val, label = &h, "pointer"
+	case 2:
+		val, label = []HookHolder{h}, "in-slice"
+	case 3:
+		val, label = map[string]HookHolder{"k": h}, "in-map"
+	default:
+		val, label = []any{h, &h}, "in-any-slice"
+	}
+	cs := map[string]any{"type": fmt.Sprintf("%T", val), "value": fmt.Sprintf("%+v", h), "options": optString(&o), "pass": label}
+	c.Begin("encoders(hook types)", cs)
+	c.Cover("type:hook-fields")
+	groups := map[string]string{} // group -> canonical text of the first member
+	first := map[string]string{}
+	for _, en := range encoders {
+		var text string
+		var tree any
+		var isTree bool
+		var err error
+		oc := o
+		pn := mon.Guard(func() { text, tree, isTree, err = en.run(val, &oc) })
+		c.Eval(1)
+		cls := optClass(&o)
+		switch {
+		case pn != nil:
+			c.Violation(en.name, "panic", "hook-types/"+kindOfFault(pn.Msg)+"/"+cls, cs, "an encoding", pn.String())
+			continue
+		case err != nil:
+			c.Violation(en.name, "error", "hook-types/"+kindOfFault(err.Error())+"/"+cls, cs, "an encoding", err.Error())
+			continue
+		}
+		if !isTree {
+			if text == "" {
+				c.Violation(en.name, "empty-output", "hook-types/"+cls, cs, "an encoding", "\"\"")
+				continue
+			}
+			var perr error
+			if en.sen {
+				tree, perr = sen.Parse([]byte(text))
+			} else {
+				tree, perr = parseJSON(text)
+			}
+			if perr != nil {
+				c.Violation(en.name, "output-does-not-parse", "hook-types/"+cls, cs, "a parseable text", clip(text)+" :: "+perr.Error())
+				continue
+			}
+		}
+		g := "pretty+decompose"
+		if strings.HasPrefix(en.name, "oj.") || strings.HasPrefix(en.name, "sen.") {
+			g = "oj+sen"
+		}
+		t := show(norm(tree))
+		if prev, ok := groups[g]; !ok {
+			groups[g], first[g] = t, en.name
+		} else if prev != t && !o.OmitNil && !o.OmitEmpty {
+			c.Violation(en.name, "differs-from-sibling-encoder", "hook-types/"+cls, cs, first[g]+": "+clip(prev), clip(t))
+		}
+	}
+}
+
 func run(c *mon.Ctx) {
 	ck := &checker{c: c}
 	r := c.Rand("c15")
 	g := &typeGen{r: r}
 	n := c.Pick(200000, 3000000) / c.Batches
 	for i := 0; i < n; i++ {
+		if i%40 == 0 {
+			ck.hooks(r)
+		}
 		var st reflect.Type
 		switch {
 		case i%23 == 0:
